@@ -165,6 +165,43 @@ func gitPackedCopy(loose string, u map[string]*uniObj, order []string, tag strin
 	return dir, nil
 }
 
+// hugePair: h1 = 17 MiB + 4 KiB of seeded pseudo-random bytes, h2 = h1 without its first 5 MiB plus a tail
+// (the delta selector only pairs objects when the target is at least 2/3 of the base).
+// A delta of h2 against h1 copies from offsets >= 16 MiB (fourth offset byte of the copy instruction).
+func hugePair(f objFormat) []*uniObj {
+	rnd := rand.New(rand.NewSource(rep.Seed()*7919 + 17))
+	h1 := make([]byte, 17<<20+4096)
+	rnd.Read(h1)
+	h2 := append(append([]byte{}, h1[5<<20:]...), "a few trailing bytes that only the second blob has\n"...)
+	var out []*uniObj
+	for i, c := range [][]byte{h1, h2} {
+		out = append(out, &uniObj{fmt.Sprintf("h%d", i+1), "blob", c, hex.EncodeToString(f.objectID("blob", c))})
+	}
+	return out
+}
+
+// ensureHuge adds the huge pair to the memory source of the environment on first use.
+func (e *c07Env) ensureHuge() error {
+	if e.u["h1"] != nil {
+		return nil
+	}
+	hp := hugePair(e.f)
+	um := map[string]*uniObj{}
+	var order []string
+	for _, o := range hp {
+		um[o.sym] = o
+		order = append(order, o.sym)
+	}
+	if err := fillStorage(e.src["memory"], um, order); err != nil {
+		return err
+	}
+	for _, o := range hp {
+		e.u[o.sym] = o
+		e.byID[o.id] = o
+	}
+	return nil
+}
+
 type c07Env struct {
 	f      objFormat
 	u      map[string]*uniObj
@@ -267,6 +304,12 @@ func c07(args []string) error {
 		fmts := []string{"sha1"}
 		if rnd.Intn(4) == 0 {
 			fmts = append(fmts, "sha256")
+		}
+		if sc.Fam["huge"] == "pair" {
+			fmts = []string{"sha1"} // the huge pair is rendered for one format (cost)
+			if err := envs["sha1"].ensureHuge(); err != nil {
+				return err
+			}
 		}
 		for _, fn := range fmts {
 			env := envs[fn]
